@@ -579,13 +579,20 @@ async fn run_script(script: &Value, out: &mut impl Write) {
         };
         // A1 (timers are serviced) holds by construction of TLC's scripts on code that conforms to the model.  A script
         // computed for the MODEL and replayed on code that has drifted from it (continuations, escalations) must not be
-        // allowed to break it: a tick never jumps over a real deadline - the due handler runs first / in between.
+        // allowed to break it (nor A2): a tick never jumps over a real deadline - the due handler runs first / in between.
         let (step, is_epi, is_auto) = if !is_epi && step["a"] == "Tick" {
             let su = w.sender.as_ref().map(|t| t.verif_until_timeout());
             let ru = w.receiver.as_ref().map(|t| t.verif_until_timeout());
             let d = step["d"].as_u64().unwrap();
             let next = [su, ru].iter().flatten().filter(|x| **x != Duration::MAX).map(|x| (x.as_millis() as u64 + 999) / 1000).min();
-            if su == Some(Duration::ZERO) {
+            // A2 (local steps are urgent): a task that has a PDU to send sends it before time passes
+            if w.sender.as_ref().map(|t| t.verif_has_pdu_to_send()).unwrap_or(false) {
+                pending.push_front(step.clone());
+                (json!({"a": "S_Send"}), false, true)
+            } else if w.receiver.as_ref().map(|t| t.verif_has_pdu_to_send()).unwrap_or(false) {
+                pending.push_front(step.clone());
+                (json!({"a": "R_Send"}), false, true)
+            } else if su == Some(Duration::ZERO) {
                 pending.push_front(step.clone());
                 (json!({"a": "S_Timeout"}), false, true)
             } else if ru == Some(Duration::ZERO) {
